@@ -15,8 +15,8 @@
     Outcomes ([result]):
       [Ok x]      the function returns
       [Error e]   a RuntimeError is raised: main() reports it and exits 1 (a diagnosed error)
-      [Crash c]   any other exception escapes (KeyError for -O9, ValueError for -Ofoo ...): main()
-                  does not catch it, i.e. the problem is NOT "reported as an error"
+      [Crash c]   any other exception escapes (e.g. a KeyError): main() does not catch it, i.e. the
+                  problem is NOT "reported as an error" (FlagsThms.never_crashes: this never happens)
       [Fuel]      the model ran out of fuel (excluded in every theorem; Python would loop or hit
                   the recursion limit)
 
@@ -33,7 +33,8 @@ Definition str_eqb := PyLite.str_eqb.
 Inductive errkind :=
   | EConflict (a b : N)        (* "Conflict between A and B" *)
   | EUnknownFlag | EUnknownOption | EInvalidArgument | EMissingValue
-  | EMultipleFilenames | ENoInput | EOutputExtension | EInvalidOptionValue.
+  | EMultipleFilenames | ENoInput | EOutputExtension | EInvalidOptionValue
+  | EInvalidLevel | EInvalidFlagValue | EUnknownDump.
 Inductive crashkind := KeyError | ValueError.
 
 Inductive result (A : Type) := Ok (a : A) | Error (e : errkind) | Crash (c : crashkind) | Fuel.
@@ -252,33 +253,72 @@ Fixpoint split_on (sep : N) (s : pystr) (cur : pystr) : list pystr :=
   | c :: r => if (c =? sep)%N then rev cur :: split_on sep r [] else split_on sep r (c :: cur)
   end.
 
+(** [s.split(sep, 1)] when [sep] occurs: (text before the first sep, text after it) *)
+Fixpoint split_first (sep : N) (s : pystr) (cur : pystr) : option (pystr * pystr) :=
+  match s with
+  | [] => None
+  | c :: r => if (c =? sep)%N then Some (rev cur, r) else split_first sep r (c :: cur)
+  end.
+
+(** [optimize_level = int(option_value)] (ValueError -> RuntimeError) and [optimize_level in cls._OPTIMIZE_LEVELS] *)
+Definition level_member (m : meta) (z : Z) : bool :=
+  (0 <=? z)%Z && existsb (fun e => (fst e =? Z.to_N z)%N) (mlevels m).
+Definition parse_level (m : meta) (value : pystr) : option Z :=
+  match PyLite.py_int_lit value 10 with
+  | PyLite.Ok z => if level_member m z then Some z else None
+  | _ => None
+  end.
+(** the value part of [--flag name=value]: yes / on / no / off, anything else is a RuntimeError *)
+Definition flag_value (v : pystr) : option bool :=
+  if mem_str v [s2l "yes"; s2l "on"] then Some true
+  else if mem_str v [s2l "no"; s2l "off"] then Some false else None.
+(** -f<value> ([short]) or --flag <value>: the (flag name as written, set_to) it denotes *)
+Definition parse_flag_arg (short : bool) (value : pystr) : result (pystr * bool) :=
+  if short then
+    if starts_with (s2l "no-") value then Ok (skipn 3 value, false)        (* option_value[3:] *)
+    else Ok (value, true)
+  else
+    match split_first 61 value [] with
+    | None => Ok (value, true)                                              (* "=" not in option_value *)
+    | Some (n, v) => match flag_value v with Some b => Ok (n, b) | None => Error EInvalidFlagValue end
+    end.
+(** [for i in option_value.split(","): cls._dump.append(DebugDumpable(i))]; unknown target -> RuntimeError *)
+Fixpoint parse_dumps (kinds : list pystr) (l : list pystr) : option (list nat) :=
+  match l with
+  | [] => Some []
+  | i :: r => match index_str kinds i 0 with
+              | Some k => match parse_dumps kinds r with Some t => Some (k :: t) | None => None end
+              | None => None
+              end
+  end.
+
+Definition set_level (st : pstate) (z : Z) : pstate :=
+  {| p_level := z; p_overrides := p_overrides st; p_options := p_options st; p_dumps := p_dumps st; p_dry := p_dry st; p_have_input := p_have_input st |}.
+Definition add_override (st : pstate) (k : N) (b : bool) : pstate :=
+  {| p_level := p_level st; p_overrides := p_overrides st ++ [(k, b)]; p_options := p_options st; p_dumps := p_dumps st; p_dry := p_dry st; p_have_input := p_have_input st |}.
+Definition add_option (st : pstate) (i : nat) (v : optval) : pstate :=
+  {| p_level := p_level st; p_overrides := p_overrides st; p_options := p_options st ++ [(i, v)]; p_dumps := p_dumps st; p_dry := p_dry st; p_have_input := p_have_input st |}.
+Definition add_dumps (st : pstate) (ds : list nat) : pstate :=
+  {| p_level := p_level st; p_overrides := p_overrides st; p_options := p_options st; p_dumps := p_dumps st ++ ds; p_dry := p_dry st; p_have_input := p_have_input st |}.
+Definition set_dry (st : pstate) : pstate :=
+  {| p_level := p_level st; p_overrides := p_overrides st; p_options := p_options st; p_dumps := p_dumps st; p_dry := true; p_have_input := p_have_input st |}.
+Definition set_input (st : pstate) : pstate :=
+  {| p_level := p_level st; p_overrides := p_overrides st; p_options := p_options st; p_dumps := p_dumps st; p_dry := p_dry st; p_have_input := true |}.
+
 (** what one option does; [None] = exit(0) (help / version) *)
 Definition handle (T : tables) (name value : pystr) (st : pstate) : result (option pstate) :=
   if mem_str name [s2l "o"; s2l "output"] then
     if existsb (N.eqb 46) value then Error EOutputExtension else Ok (Some st)
   else if str_eqb name (s2l "O") then
-    match PyLite.py_int_lit value 10 with
-    | PyLite.Ok z => Ok (Some {| p_level := z; p_overrides := p_overrides st; p_options := p_options st;
-                                 p_dumps := p_dumps st; p_dry := p_dry st; p_have_input := p_have_input st |})
-    | _ => Crash ValueError                         (* int(option_value) *)
+    match parse_level (t_meta T) value with
+    | Some z => Ok (Some (set_level st z))
+    | None => Error EInvalidLevel
     end
   else if mem_str name [s2l "f"; s2l "flag"] then
-    let parsed : result (pystr * bool * pystr) :=    (* (flag_name, set_to, text for the message) *)
-      if str_eqb name (s2l "f") then
-        if starts_with (s2l "no-") value
-        then Ok (flagify (skipn 3 value), false, skipn 3 value)           (* option_value[3:] *)
-        else Ok (flagify value, true, value)
-      else
-        match split_on 61 value [] with
-        | [_] => Ok (flagify value, true, value)                             (* "=" not in option_value *)
-        | [n; v] => Ok (flagify n, mem_str v [s2l "yes"; s2l "on"], n)
-        | _ => Crash ValueError                                              (* flag_name, set_to = ....split("=") *)
-        end in
-    match parsed with
-    | Ok (fname, set_to, _) =>
-      match assoc_str (t_names T) fname with
-      | Some k => Ok (Some {| p_level := p_level st; p_overrides := p_overrides st ++ [(k, set_to)]; p_options := p_options st;
-                              p_dumps := p_dumps st; p_dry := p_dry st; p_have_input := p_have_input st |})
+    match parse_flag_arg (str_eqb name (s2l "f")) value with
+    | Ok (n, set_to) =>
+      match assoc_str (t_names T) (flagify n) with         (* flag_name.upper().replace("-", "_") in __members__ *)
+      | Some k => Ok (Some (add_override st k set_to))
       | None => Error EUnknownFlag
       end
     | Error e => Error e | Crash c => Crash c | Fuel => Fuel
@@ -287,17 +327,12 @@ Definition handle (T : tables) (name value : pystr) (st : pstate) : result (opti
   else if str_eqb name (s2l "help-all") then Ok None
   else if str_eqb name (s2l "version") then Ok None
   else if mem_str name [s2l "d"; s2l "dump"] then
-    (* for i in option_value.split(","): cls._dump.append(DebugDumpable(i)) *)
-    (fix go (l : list pystr) (acc : list nat) : result (option pstate) :=
-       match l with
-       | [] => Ok (Some {| p_level := p_level st; p_overrides := p_overrides st; p_options := p_options st;
-                           p_dumps := p_dumps st ++ rev acc; p_dry := p_dry st; p_have_input := p_have_input st |})
-       | i :: r => match index_str (t_dumps T) i 0 with Some k => go r (k :: acc) | None => Crash ValueError end
-       end) (split_on 44 value []) []
+    match parse_dumps (t_dumps T) (split_on 44 value []) with
+    | Some ds => Ok (Some (add_dumps st ds))
+    | None => Error EUnknownDump
+    end
   else if str_eqb name (s2l "dump-prefix") then Ok (Some st)
-  else if mem_str name [s2l "t"; s2l "dry-run"] then
-    Ok (Some {| p_level := p_level st; p_overrides := p_overrides st; p_options := p_options st;
-                p_dumps := p_dumps st; p_dry := true; p_have_input := p_have_input st |})
+  else if mem_str name [s2l "t"; s2l "dry-run"] then Ok (Some (set_dry st))
   else
     match index_str (map fst (t_options T)) (flagify name) 0 with
     | None => Error EUnknownOption
@@ -305,12 +340,10 @@ Definition handle (T : tables) (name value : pystr) (st : pstate) : result (opti
       let isint := match nth_error (t_options T) i with Some (_, b) => b | None => false end in
       if isint then
         match PyLite.py_int_lit value 10 with                 (* type(default)(option_value) *)
-        | PyLite.Ok z => Ok (Some {| p_level := p_level st; p_overrides := p_overrides st; p_options := p_options st ++ [(i, OInt z)];
-                                     p_dumps := p_dumps st; p_dry := p_dry st; p_have_input := p_have_input st |})
+        | PyLite.Ok z => Ok (Some (add_option st i (OInt z)))
         | _ => Error EInvalidOptionValue
         end
-      else Ok (Some {| p_level := p_level st; p_overrides := p_overrides st; p_options := p_options st ++ [(i, OStr value)];
-                       p_dumps := p_dumps st; p_dry := p_dry st; p_have_input := p_have_input st |})
+      else Ok (Some (add_option st i (OStr value)))
     end.
 
 Definition no_value_names : list pystr := [s2l "help"; s2l "dry-run"; s2l "version"; s2l "help-all"].
@@ -325,8 +358,7 @@ Fixpoint tokenise (T : tables) (args : list pystr) (st : pstate) {struct args} :
     | c0 :: t0 =>
       if negb (c0 =? 45)%N then
         if p_have_input st then Error EMultipleFilenames
-        else tokenise T rest {| p_level := p_level st; p_overrides := p_overrides st; p_options := p_options st;
-                                p_dumps := p_dumps st; p_dry := p_dry st; p_have_input := true |}
+        else tokenise T rest (set_input st)
       else
         match t0 with
         | [] => Error EInvalidArgument                             (* option[1]: IndexError *)
